@@ -142,7 +142,22 @@ def _replay_region(b, order=1):
         small = binned.replace(output_shape=S).load(0)
         ref = big.reshape(S[0], b, S[1], b, S[2], b).sum(axis=(1, 3, 5))
         err = float(np.abs(small - ref).max())
-        return err > 1e-4 * b ** 3, {"max_abs_err": err, "b": b, "scale": scale, "binned_scale": binned.scale}
+        # the original loader is not altered by binning(): same molecules, same sub-volume afterwards
+        moved = float(np.abs(np.asarray(ld.molecules.pos, dtype=float) - pos_orig).max())
+        err_again = float(np.abs(ld.load(0) - big).max())
+        # a dask tomogram cut into irregular chunks gives the same binned image as the numpy array
+        import dask.array as da
+        from acryo._utils import bin_image
+
+        chunks = tuple((6 * b, 3 * b + 1, size[a] - 9 * b - 1) for a in range(3))  # the largest chunk is a multiple of b, the others are not
+        try:
+            got_d, got_n = np.asarray(bin_image(da.from_array(img, chunks=chunks), b)), np.asarray(bin_image(img, b))
+            irregular = float(np.abs(got_d - got_n).max()) if got_d.shape == got_n.shape else float("inf")
+        except Exception:
+            irregular = float("inf")
+        bad = err > 1e-4 * b ** 3 or moved > 1e-6 or err_again > 1e-6 or irregular > 1e-6
+        return bad, {"max_abs_err": err, "b": b, "scale": scale, "binned_scale": binned.scale, "original_molecules_moved_by": moved, "original_subvolume_changed_by": err_again,
+                     "dask_irregular_chunks_vs_numpy": irregular}
 
     return run
 
@@ -231,7 +246,7 @@ def sec_region(rec, b=2, patches=None):
         rec.fact(f"{tag}/path{i}/same-order", rb.order == ro.order == order, key="C15/binning/order", detail={})
 
 
-def _replay_region_batch(b, compute=False):
+def _replay_region_batch(b, compute=False, kinds=None):
     def run(cex):
         with load.real_modules():
             return _run(cex)
@@ -249,7 +264,7 @@ def _replay_region_batch(b, compute=False):
             img = rng.normal(size=(12 * b + 3, 12 * b + 1, 12 * b + 5))
             cb = np.array([5.0, 5.5, 4.5]) + k
             pos = (cb * b + (b - 1) / 2) * scale
-            if compute:
+            if (compute and kinds is None) or (kinds is not None and kinds[k] == "dask"):
                 import dask.array as da
 
                 img = da.from_array(img, chunks=(16, 16, 16))
@@ -268,8 +283,9 @@ def _replay_region_batch(b, compute=False):
     return run
 
 
-def sec_region_batch(rec, b=3, compute=False, patches=None):
-    """BatchLoader.binning keeps the sampled physical region (same identity as for the single loader)"""
+def sec_region_batch(rec, b=3, compute=False, kinds=None, patches=None):
+    """BatchLoader.binning keeps the sampled physical region (same identity as for the single loader); kinds: which tomograms are
+    in-memory arrays ("numpy") and which are dask arrays ("dask") -- with compute=True only the dask ones are computed"""
     from . import c03
 
     L = c03._load(patches)
@@ -286,13 +302,15 @@ def sec_region_batch(rec, b=3, compute=False, patches=None):
         for a in range(3):
             c = P[t][a].e / scale.e
             hyps += [c >= 1000, c <= _real(n[a].e) - 1000]
-    rp = _replay_region_batch(b, compute)
-    tag = f"region-batch[b={b},compute={compute}]"
+    rp = _replay_region_batch(b, compute, kinds)
+    tag = f"region-batch[b={b},compute={compute}{',' + '+'.join(kinds) if kinds else ''}]"
     with L.installed():
         def run():
             bl = BT.BatchLoader(order=1, scale=scale, output_shape=tuple(b * s for s in S))
             for k, t in enumerate(tags):
-                bl.add_tomogram(stubs.ImgStub(n, root=f"tomo{k}"), c03._molecules(MC, [t]), image_id=k)
+                im = stubs.ImgStub(n, root=f"tomo{k}")
+                im.numpy_like = bool(kinds and kinds[k] == "numpy")
+                bl.add_tomogram(im, c03._molecules(MC, [t]), image_id=k)
             binned = bl.binning(b, compute=compute).replace(output_shape=S)
             ro = [t.compute() for t in bl.construct_loading_tasks(backend=xp)]
             rb = [t.compute() for t in binned.construct_loading_tasks(backend=xp)]
@@ -394,6 +412,9 @@ def sections(tier):
         S.append((f"region-batch-b{b}", "checks.c15", "sec_region_batch", {"b": b}))
         if b in (2, 3):
             S.append((f"region-batch-b{b}-compute", "checks.c15", "sec_region_batch", {"b": b, "compute": True}))
+        if b == 2:
+            for kinds in (("numpy", "dask"), ("dask", "numpy"), ("numpy", "numpy")):
+                S.append((f"region-batch-b{b}-compute-{'+'.join(kinds)}", "checks.c15", "sec_region_batch", {"b": b, "compute": True, "kinds": kinds}))
     return S
 
 
